@@ -163,8 +163,8 @@ func isSameAsPrevious(ps []*Packet, p *Packet) bool {
 		hasSameFlags(ps[l-1], p)
 }
 
-// hasSameFlags checks whether the header and adaptation field flags of 2 packets are the same: a duplicate repeats the
-// whole packet, but for the value of its clock references
+// hasSameFlags checks whether the header and adaptation field of 2 packets are the same, but for the value of their
+// clock references: that's what a duplicate repeats
 func hasSameFlags(a, b *Packet) bool {
 	if a.Header.PayloadUnitStartIndicator != b.Header.PayloadUnitStartIndicator || a.Header.TransportPriority != b.Header.TransportPriority ||
 		a.Header.TransportScramblingControl != b.Header.TransportScramblingControl || (a.AdaptationField == nil) != (b.AdaptationField == nil) {
@@ -174,7 +174,22 @@ func hasSameFlags(a, b *Packet) bool {
 		return fa.Length == fb.Length && fa.DiscontinuityIndicator == fb.DiscontinuityIndicator && fa.RandomAccessIndicator == fb.RandomAccessIndicator &&
 			fa.ElementaryStreamPriorityIndicator == fb.ElementaryStreamPriorityIndicator && fa.HasPCR == fb.HasPCR && fa.HasOPCR == fb.HasOPCR &&
 			fa.HasSplicingCountdown == fb.HasSplicingCountdown && fa.HasTransportPrivateData == fb.HasTransportPrivateData &&
-			fa.HasAdaptationExtensionField == fb.HasAdaptationExtensionField
+			fa.HasAdaptationExtensionField == fb.HasAdaptationExtensionField && fa.SpliceCountdown == fb.SpliceCountdown &&
+			bytes.Equal(fa.TransportPrivateData, fb.TransportPrivateData) &&
+			hasSameExtension(fa.AdaptationExtensionField, fb.AdaptationExtensionField)
 	}
 	return true
+}
+
+// hasSameExtension checks whether 2 adaptation field extensions are the same
+func hasSameExtension(a, b *PacketAdaptationExtensionField) bool {
+	if a == nil || b == nil {
+		return a == b
+	}
+	if (a.DTSNextAccessUnit == nil) != (b.DTSNextAccessUnit == nil) || (a.DTSNextAccessUnit != nil && *a.DTSNextAccessUnit != *b.DTSNextAccessUnit) {
+		return false
+	}
+	ca, cb := *a, *b
+	ca.DTSNextAccessUnit, cb.DTSNextAccessUnit = nil, nil
+	return ca == cb
 }
